@@ -350,10 +350,13 @@ class StreamableHTTPTransport(Transport):
                         continue
 
                     # Parse SSE format
-                    if line.startswith("event: "):
-                        current_event = line[7:].strip()
-                    elif line.startswith("data: "):
-                        data = line[6:]  # Keep formatting
+                    # (the single space after the colon is optional)
+                    if line.startswith("event:"):
+                        current_event = line[6:].strip()
+                    elif line.startswith("data:"):
+                        data = line[5:]  # Keep formatting
+                        if data.startswith(" "):
+                            data = data[1:]
                         event_data.append(data)
 
             # Process any remaining event
@@ -390,10 +393,13 @@ class StreamableHTTPTransport(Transport):
                     continue
 
                 # Parse SSE format
-                if line.startswith("event: "):
-                    current_event = line[7:].strip()
-                elif line.startswith("data: "):
-                    data = line[6:]  # Keep formatting
+                # (the single space after the colon is optional)
+                if line.startswith("event:"):
+                    current_event = line[6:].strip()
+                elif line.startswith("data:"):
+                    data = line[5:]  # Keep formatting
+                    if data.startswith(" "):
+                        data = data[1:]
                     event_data.append(data)
 
             # Process any remaining event
